@@ -15,7 +15,8 @@ RULE = ('Generated: (A) planet mass/radius, 1-200 layers, decreasing level press
         'directly; (B) whole models on the standard log-spaced grid or on an array pressure profile, with '
         'height-varying composition, built and run, after which every exposed or stored per-layer quantity is '
         'inspected.  Non-trivial = >=3 layers and a non-isothermal or non-constant-mu atmosphere; distinct by '
-        'case hash.')
+        'case hash.'
+        ' After the first evaluation the pressure range of simple-profile models is moved through the fitting parameters and levels, density and the whole hydrostatic structure are judged again.')
 ASSUMPTIONS = [
     'G = 6.6743e-11, k_B = 1.380649e-23, MJUP = GM_J/G with GM_J = 1.2668653e17, RJUP = 71492 km typed in',
     'level spacing >= 1e-9 decades (below that float64 cannot represent strictly decreasing levels)',
